@@ -201,7 +201,10 @@ def rewrite_body(s, applied):
     return s
 
 UNSUPPORTED = [r'\.iter\(\)', r'\.iter_mut\(\)', r'\bunsafe\b', r'\bstatic\b', r'\bCell\b', r'\bRefCell\b', r'\bRc\b', r'\bArc\b',
-               r'\bmin_by\b', r'\bmax_by\b', r'\.rev\(\)', r'\.fold\(', r'\.sum\(', r'\bwhile let\b']
+               r'\bmin_by\b', r'\bmax_by\b', r'\.rev\(\)', r'\.fold\(', r'\.sum\(', r'\bwhile let\b',
+               # closures carry no contract: a guard outside the closure (`c.then(|| a / b)`) is invisible inside it, so an obligation failing
+               # there says nothing about the code (found by the cross-property run on C08-T1a: a C15 alarm although no panic is possible)
+               r'\.then\(', r'\(\s*\|\|', r'\(\s*move\s*\|']
 
 def monomorphise(s):
     s = re.sub(r'impl<T, ', 'impl<', s)
